@@ -572,7 +572,8 @@ def r6_builder_keeps_seed(ctx):
                 for name, comp in zip(t[3], t[2]):
                     from_self = any(x[0] == 'field' and x[2] == name and peel(x[1])[0] == 'arg' and peel(x[1])[1] == 1 for x in walk(comp))
                     from_args = any(x[0] == 'arg' and x[1] != 1 for x in walk(comp))
-                    if not (from_self or from_args):
+                    literal = peel(comp)[0] in ('int', 'const', 'bool', 'str', 'float')     # `quiet: true` — the option itself, set to a constant
+                    if not (from_self or from_args or literal):
                         bad = (name, show(comp)[:80])
                         break
             else:
